@@ -189,6 +189,26 @@ def r10_5(ctx: Ctx) -> None:
     np_ = ctx.prog.func("compressor", "SupportedMethods.needs_password")
     loops = [n for n in walk(np_.node) if isinstance(n, ast.For)]
     ok = bool(loops) and norm(loops[0].iter) == "coders" and any(isinstance(r, ast.Return) and isinstance(r.value, ast.Constant) and r.value.value is True for r in walk(loops[0]))
+    if not ok:
+        # the same scan as `return any(<crypto test of coder> for coder in coders)`, the test written out or in a helper of the class
+        def crypto_test(e: ast.AST) -> bool:
+            for c in [x for x in ast.walk(e) if isinstance(x, ast.Call)]:
+                if attr_tail(c) == "is_crypto_id":
+                    return True
+                if isinstance(c.func, ast.Attribute) and norm(c.func.value) in ("cls", "self", "SupportedMethods"):
+                    try:
+                        h = ctx.prog.func("compressor", "SupportedMethods." + c.func.attr)
+                    except Exception:
+                        continue
+                    if h is not np_ and any(isinstance(x, ast.Call) and attr_tail(x) == "is_crypto_id" for x in walk(h.node)):
+                        return True
+            return False
+        for r in [r for r in walk(np_.node) if isinstance(r, ast.Return) and isinstance(r.value, ast.Call)]:
+            v = r.value
+            if isinstance(v.func, ast.Name) and v.func.id == "any" and v.args and isinstance(v.args[0], (ast.GeneratorExp, ast.ListComp)) \
+                    and len(v.args[0].generators) == 1 and norm(v.args[0].generators[0].iter) == "coders" and crypto_test(v.args[0].elt) \
+                    and all(crypto_test(i) or "is not None" in norm(i) for i in v.args[0].generators[0].ifs):
+                ok = True
     ctx.check(ok, "R10.5", np_, np_.node, "needs_password scans every coder", "SupportedMethods.needs_password does not scan every coder", construct="needs_password loop")
     npw = shared.szf(ctx, "needs_password")
     ok = any(isinstance(r, ast.Return) and norm(r.value) == "self.password_protected" for r in walk(npw.node))
